@@ -444,6 +444,28 @@ void run_history(vh::Ctx& c, vh::Rng& r, const std::string& prop, bool extended,
         adopt_observed(a);
         w.check_all("in-place operation"); c.count("op.inplace"); continue;
       }
+      if (op == 19 && r.coin(0.5)) {
+        // the aligned factories promise ideally aligned storage ("make_aligned will automatically create SU_vectors
+        // satisfying these criteria, as will the other static factory functions"), and users rely on it when they
+        // assert AlignedStorage: a factory result that is not ideally aligned becomes a misaligned vector load
+        os << " aligned-factories(dim" << d << ")"; w.hist += os.str(); c.desc(w.hist);
+        SU_vector F1 = SU_vector::make_aligned(d), F2 = r.coin() ? SU_vector::Identity(d) : SU_vector::Projector(d, r.pick(d)), T = SU_vector::make_aligned(d, false);
+        SU_vector F3 = SU_vector::Generator(d, r.pick(d * d)), F4 = r.coin() ? SU_vector::PosProjector(d, r.pick(d)) : SU_vector::NegProjector(d, r.pick(d));
+        const SU_vector* fs[5] = {&F1, &F2, &T, &F3, &F4};
+        bool allok = true;
+        for (int k = 0; k < 5; k++) if (!ideally_aligned(*fs[k])) { allok = false; w.viol("aligned-factory-result-not-ideally-aligned", vh::fmt("factory result %d of dimension %u has its components at %p", k, d, (const void*)&(*fs[k])[0])); break; }
+        if (allok) {
+          using namespace squids::detail;
+          for (unsigned k = 0; k < d * d; k++) F1[k] = r.normal();
+          T = guarantee<NoAlias | EqualSizes | AlignedStorage>(F1 + F2);
+          T += guarantee<NoAlias | EqualSizes | AlignedStorage>(F3 - F4);
+          T -= guarantee<NoAlias | EqualSizes | AlignedStorage>(F1 * 0.5);
+          volatile double x = squids::SUTrace<AlignedStorage>(T, F2); (void)x;
+          for (unsigned k = 0; k < d * d; k++) { double want = (F1[k] + F2[k]) + (F3[k] - F4[k]) - F1[k] * 0.5; if (!(std::fabs(T[k] - want) <= 16 * EPS * (std::fabs(F1[k]) + 3))) { w.viol("aligned-expression:wrong-value", vh::fmt("component %u: %.17g vs %.17g", k, T[k], want)); break; } }
+        }
+        w.check_all("aligned factories"); c.count("op.aligned_factories");
+        continue;
+      }
       if (op == 19) {
         // evolution tables and filters on exact-size heap tables; stream output
         int a = w.pick({OWNED, EXT}); if (a < 0) continue;
